@@ -287,6 +287,6 @@ def _arity(ck, fx):
         if not ck.anchor("R14.arity", name, paths):
             continue
         oks = V.ok_paths(paths)
-        guarded = bool(oks) and all(any(text in fmt_term(c) and not val for c, val in V.assumes(p["eff"])) for p in oks)
-        fails = any(p["out"][0] == "val" and p["out"][1][0] == "err" and any(text in fmt_term(c) and val for c, val in V.assumes(p["eff"])) for p in paths)
+        guarded = bool(oks) and all(V.assumed(p["eff"], text, False) for p in oks)
+        fails = any(p["out"][0] == "val" and p["out"][1][0] == "err" and V.assumed(p["eff"], text, True) for p in paths)
         ck.ob("R14.arity", what, guarded and fails, "", "%s: every successful path passed the count test: %s; a wrong count fails: %s" % (name, guarded, fails))
